@@ -13,7 +13,10 @@ pub struct Pools {
     pub curated: Vec<char>,
 }
 
-pub const ASCII_POOL: &[u8] = b"abcxyzABCXYZ0129 /_-.:,;|\t\\$^'!";
+// includes the characters adjacent to every ASCII class boundary (@ A..Z [ ` a..z { / 0..9 : DEL)
+pub const ASCII_POOL: &[u8] = b"abcxyzABCXYZ0129 /_-.:,;|\t\\$^'!@[`{~]}\x7f";
+/// boundary rich pool for score oracles: first / last letters and digits, their neighbours
+pub const SCORE_WIDE: &[u8] = b"azAZ09 /_-.:@[`{\tbB";
 pub const SCORE_ASCII: &[u8] = b"abAB1 /_-.:";
 pub const CURATED: &[char] = &[
     // lower
@@ -105,6 +108,12 @@ pub fn gen_alphabet(rng: &mut Rng, pools: &Pools, profile: Profile) -> Vec<char>
             let k = rng.range(2, 6);
             for _ in 0..k {
                 out.push(*rng.pick(ASCII_POOL) as char);
+            }
+        }
+        Profile::ScoreAscii if rng.chance(1, 3) => {
+            let k = rng.range(3, 7);
+            for _ in 0..k {
+                out.push(*rng.pick(SCORE_WIDE) as char);
             }
         }
         Profile::ScoreAscii => {
